@@ -15,16 +15,29 @@ namespace detail {
 template <typename T>
 [[nodiscard]] constexpr auto nextafter(T from, T to) -> T
 {
-    using U             = etl::conditional_t<sizeof(T) == 4U, etl::uint32_t, etl::uint64_t>;
-    auto const fromBits = etl::bit_cast<U>(from);
-    auto const toBits   = etl::bit_cast<U>(to);
-    if (toBits == fromBits) {
+    using U = etl::conditional_t<sizeof(T) == 4U, etl::uint32_t, etl::uint64_t>;
+
+    if (from != from) {
+        return from;
+    }
+    if (to != to) {
         return to;
     }
-    if (toBits > fromBits) {
-        return etl::bit_cast<T>(fromBits + 1);
+    if (from == to) {
+        return to;
     }
-    return etl::bit_cast<T>(fromBits - 1);
+
+    if (from == T(0)) {
+        // smallest subnormal with the sign of the direction
+        auto const signMask = static_cast<U>(U(1) << (sizeof(U) * 8U - 1U));
+        auto const sign     = static_cast<U>(etl::bit_cast<U>(to) & signMask);
+        return etl::bit_cast<T>(static_cast<U>(sign | U(1)));
+    }
+
+    // the magnitude of a non-zero value grows with its bit pattern, whatever the sign
+    auto const fromBits = etl::bit_cast<U>(from);
+    auto const away     = (from < to) == (from > T(0));
+    return etl::bit_cast<T>(static_cast<U>(away ? fromBits + U(1) : fromBits - U(1)));
 }
 } // namespace detail
 
